@@ -195,7 +195,7 @@ class C02Cartesian(Harness):
 class C02Cylindrical(Harness):
     name = "C02Cylindrical"
     prop = "C02"
-    bounds = ("every binary image on CylindricalSymGrid 2x3, 3x3 (thorough 3x4), periodic_z both; image bits symbolic "
+    bounds = ("every binary image on CylindricalSymGrid 2x3, 3x3 (periodic_z both), 3x4 with periodic z (thorough: 3x4 both, 3x5); image bits symbolic "
               "(forked); dr, dz and z-origin symbolic")
     stubs = ["py-pde CylindricalSymGrid model", "scipy.ndimage label / find_objects (real), center_of_mass / sum_labels (exact)"]
     cost = 8
@@ -203,8 +203,10 @@ class C02Cylindrical(Harness):
 
     def configs(self, tier):
         c = []
-        for shape, nfix in (((2, 3), 1), ((3, 3), 3)) + ((((3, 4), 5),) if tier == "thorough" else ()):
+        for shape, nfix in (((2, 3), 1), ((3, 3), 3), ((3, 4), 5)) + ((((3, 5), 7),) if tier == "thorough" else ()):
             for pz in (False, True):
+                if shape in ((3, 4), (3, 5)) and not pz and tier != "thorough":
+                    continue        # quick: the larger images only with periodic z (padding, winding, duplicates)
                 for fix in itertools.product((0, 1), repeat=nfix):
                     c.append(dict(shape=list(shape), pz=pz, fix=list(fix), _cost=2 ** (shape[0] * shape[1] - nfix)))
         return c
